@@ -64,6 +64,14 @@ def body(ann, xs, ops, has_hash, lit_forms=False):
                     lines.append('print(if %s %s %s { "1" } else { "0" })' % (A, op, B))
                 lines.append('print(" ")')
         lines.append('print("#")')
+    # once more operator by operator: consecutive comparisons then have DIFFERENT operands (state
+    # left behind by one comparison must not leak into the next)
+    lines.append('print("@")')
+    for op in ops:
+        for a in names:
+            for b_ in names:
+                lines.append('print(if %s %s %s { "1" } else { "0" })' % (a, op, b_))
+    lines.append('print("@")')
     if has_hash:
         for a in names:
             lines.append('print("|" .. Hash.hash(%s))' % a)
@@ -74,10 +82,22 @@ def body(ann, xs, ops, has_hash, lit_forms=False):
 def laws_all(text, xs, has_ord, has_hash):
     """the relation table is printed once per operand form (variables, variable-literal,
     literal-variable); every table must satisfy the laws and all tables must agree"""
+    opmajor = None
+    if text.count("@") == 2:
+        pre, opmajor, post = text.split("@")
+        text = pre + post
     head, _, hashes = text.strip("\n").partition("|")
     tables = [t for t in head.split("#") if t.strip() != ""]
     if not tables:
         return "no relation table in %r" % text[:80]
+    if opmajor is not None:
+        cells = tables[0].split()
+        nops = len(cells[0]) if cells else 0
+        if len(opmajor) != 9 * nops:
+            return "malformed operator-major table %r" % opmajor[:80]
+        again = ["".join(opmajor[o * 9 + p] for o in range(nops)) for p in range(9)]
+        if again != cells:
+            return "the same comparisons evaluated operator by operator give %s, pair by pair %s" % (again, cells)
     for n, t in enumerate(tables):
         w = laws(t + ("|" + hashes if hashes else ""), xs, has_ord, has_hash)
         if w:
